@@ -155,8 +155,8 @@ def hashOps : DictOps (Std.HashMap Bytes Entry) :=
 
 /-! ### `AdapterIndex._make_index` -/
 
-/-- the loop state of `_make_index`: `index`, `lengths` (a set), `ambiguous` (membership: `ambSet`; the keys in
-    reverse insertion order: `ambKeys`) -/
+/-- the loop state of `_make_index`: `index`, `lengths` (a set), `ambiguous` (membership: `ambSet`; its keys, without
+    repetition: `ambKeys` — only their number and the final deletions depend on them, not their order) -/
 structure Build (D : Type) where
   index : D
   lengths : List Nat
@@ -166,7 +166,8 @@ structure Build (D : Type) where
 def setAdd (l : List Nat) (x : Nat) : List Nat := if l.contains x then l else x :: l
 
 /-- the body shared by the two inner loops. `addLen`: the indel branch does `lengths.add(len(s))` after the
-    assignment (skipped by `continue`); the Hamming branch adds `n` once, after its loops. -/
+    assignment (skipped by `continue`); the Hamming branch adds `n` once, after its loops.
+    `elif matches > other_matches: ambiguous.pop(s, None)`: a strictly better entry clears the mark. -/
 def addEntry {D : Type} (ops : DictOps D) (ai : Nat) (addLen : Bool) (st : Build D) (item : Bytes × Nat × Nat) : Build D :=
   let (s, errors, mt) := item
   let put (st : Build D) : Build D :=
@@ -177,6 +178,8 @@ def addEntry {D : Type} (ops : DictOps D) (ai : Nat) (addLen : Bool) (st : Build
     if mt < otherMatches then st
     else if otherMatches == mt && (ops.get? st.ambSet s).isNone then
       put { st with ambSet := ops.insert st.ambSet s (ai, errors, mt), ambKeys := s :: st.ambKeys }
+    else if otherMatches < mt then
+      put { st with ambSet := ops.erase st.ambSet s, ambKeys := st.ambKeys.filter (· != s) }
     else put st
   | none => put st
 
@@ -256,29 +259,30 @@ def makeMatch {D : Type} (idx : AdapterIndex D) (ai length : Nat) (score : Int) 
   else ⟨ai, 0, alen, (sequence.length : Int) - (length : Int), sequence.length, score, errors⟩
 
 /-- `_lookup_with_n`: look up with `N → A`, then re-align with the adapter's own `match_to` (k-mer prefilter not
-    modelled here, see `Adapters.matchTo`); returns `(adapter, match.errors, match.score)` -/
-def lookupWithN {D : Type} (ops : DictOps D) (idx : AdapterIndex D) (affix : Bytes) : Option (Nat × Nat × Int) :=
+    modelled here, see `Adapters.matchTo`); returns `(adapter, match.errors, match.score, match.rstop - match.rstart)` -/
+def lookupWithN {D : Type} (ops : DictOps D) (idx : AdapterIndex D) (affix : Bytes) : Option (Nat × Nat × Int × Nat) :=
   match ops.get? idx.index (affix.map (fun c => if c == 78 then 65 else c)) with
   | none => none
   | some (ai, _, _) =>
     match matchTo (idx.adapters.getD ai default) affix with
     | none => none
-    | some mt => some (ai, mt.errors, mt.score)
+    | some mt => some (ai, mt.errors, mt.score, mt.rstop - mt.rstart)
 
-/-- the `if "N" in affix: … else: …` block: `(adapter, e, m)` or nothing -/
-def lookupAffix {D : Type} (ops : DictOps D) (idx : AdapterIndex D) (affix : Bytes) : Option (Nat × Nat × Int) :=
+/-- the `if "N" in affix: … else: …` block for an affix looked up at `length`: `(adapter, e, m, match_length)` or
+    nothing; without `N` the match length is the looked-up length -/
+def lookupAffix {D : Type} (ops : DictOps D) (idx : AdapterIndex D) (affix : Bytes) (length : Nat) : Option (Nat × Nat × Int × Nat) :=
   if affix.contains 78 then lookupWithN ops idx affix
   else match ops.get? idx.index affix with
     | none => none
-    | some (ai, e, m) => some (ai, e, (m : Int))
+    | some (ai, e, m) => some (ai, e, (m : Int), length)
 
 /-- `_match_to_one_length` (`self._length = self._lengths[0]`) -/
 def matchToOneLength {D : Type} (ops : DictOps D) (idx : AdapterIndex D) (sequence : Bytes) : Option IndexMatch :=
   let length := idx.lengths.headD 0
   let affix := makeAffix idx.isPrefix (sequence.map asciiUpper) length
-  match lookupAffix ops idx affix with
+  match lookupAffix ops idx affix length with
   | none => none
-  | some (ai, e, m) => some (makeMatch idx ai length m e sequence)
+  | some (ai, e, m, matchLength) => some (makeMatch idx ai matchLength m e sequence)
 
 structure BestSoFar where
   adapter : Nat := 0
@@ -287,22 +291,24 @@ structure BestSoFar where
   e : Nat := 1000
 deriving Repr, BEq, DecidableEq
 
-/-- the `for length in self._lengths` loop; `affix` is re-sliced from the previous (longer) affix as in the code -/
-def multiLoop {D : Type} (ops : DictOps D) (idx : AdapterIndex D) : List Nat → Bytes → BestSoFar → BestSoFar
+/-- the `for length in self._lengths` loop; `affix` is re-sliced from the previous (longer) affix as in the code;
+    `n = len(sequence)`: lengths that exceed the read are skipped (the affix is left alone) -/
+def multiLoop {D : Type} (ops : DictOps D) (idx : AdapterIndex D) (n : Nat) : List Nat → Bytes → BestSoFar → BestSoFar
   | [], _, best => best
   | length :: rest, affix, best =>
     if (length : Int) < best.m then best
+    else if length > n then multiLoop ops idx n rest affix best
     else
       let affix := makeAffix idx.isPrefix affix length
-      match lookupAffix ops idx affix with
-      | none => multiLoop ops idx rest affix best
-      | some (ai, e, m) =>
-        if m > best.m ∨ (m = best.m ∧ e < best.e) then multiLoop ops idx rest affix ⟨ai, length, m, e⟩
-        else multiLoop ops idx rest affix best
+      match lookupAffix ops idx affix length with
+      | none => multiLoop ops idx n rest affix best
+      | some (ai, e, m, matchLength) =>
+        if m > best.m ∨ (m = best.m ∧ e < best.e) then multiLoop ops idx n rest affix ⟨ai, matchLength, m, e⟩
+        else multiLoop ops idx n rest affix best
 
 /-- `_match_to_multiple_lengths` -/
 def matchToMultipleLengths {D : Type} (ops : DictOps D) (idx : AdapterIndex D) (sequence : Bytes) : Option IndexMatch :=
-  let best := multiLoop ops idx idx.lengths (sequence.map asciiUpper) {}
+  let best := multiLoop ops idx sequence.length idx.lengths (sequence.map asciiUpper) {}
   if best.m = -1 then none else some (makeMatch idx best.adapter best.length best.m best.e sequence)
 
 /-- `self.match_to`, bound in `__init__` according to `len(self._lengths) == 1` -/
